@@ -404,6 +404,13 @@ def parseMessage(rawMessage, oobFDs):
             pass
 
     if m.signature:
+        if len(m.signature) > 255:
+            # a SIGNATURE cannot be longer; a header field of another string
+            # type can, and decoding costs signature length x elements
+            raise error.MarshallingError(
+                'Body signature exceeds the maximum length of 255'
+            )
+
         nbytes, m.body = marshal.unmarshal(
             m.signature,
             m.rawBody,
